@@ -829,6 +829,9 @@ def ecdsa_recoverable_signature_serialize_compact(sig, context=_secp.ctx):
 def ecdsa_recoverable_signature_parse_compact(compact_sig, recid, context=_secp.ctx):
     if len(compact_sig) != 64:
         raise ValueError("Signature should be 64 bytes long")
+    # libsecp256k1 aborts the process on a recovery id outside 0..3
+    if recid < 0 or recid > 3:
+        raise ValueError("Failed parsing compact signature")
     sig = bytes(65)
     r = _secp.secp256k1_ecdsa_recoverable_signature_parse_compact(
         context, sig, compact_sig, recid
@@ -855,6 +858,8 @@ def ecdsa_recover(sig, msghash, context=_secp.ctx):
         raise ValueError("Recoverable signature should be 65 bytes long")
     if len(msghash) != 32:
         raise ValueError("Message should be 32 bytes long")
+    if sig[64] > 3:
+        raise ValueError("Failed to recover public key")
     pub = bytes(64)
     r = _secp.secp256k1_ecdsa_recover(context, pub, sig, msghash)
     if r == 0:
